@@ -280,6 +280,26 @@ CLAIMED["C17"] = dict(
          "forms return the string, not the position / count.",
     ref="10.8")
 
+CLAIMED["C14"] = dict(
+    technique="Lean interleaving model with unboundedly many threads (synchronisation skeletons, lock-bracketed sections around an arbitrary sequential operation, atomic counters) + T-gen: the skeletons of gp_locale, gp_arena_shared_alloc and the test counters are re-extracted from the preprocessed sources on every run + T-corr: the real code (built with -DLIBGPC_VERIF) under a cooperative scheduler, every schedule string up to a length over 2..4 threads, against the model run under the same schedule + witness search: free-running stress of 2..16 threads under ThreadSanitizer and under ASan/LSan with a cross-thread block ledger",
+    text="Theorems, for every number of threads, every thread program made of calls of the shared facilities and every schedule: no "
+         "reachable state has two threads about to perform conflicting accesses (race_free, library_calls_race_free over the "
+         "regenerated control paths, whose discipline - plain accesses only under the object's mutex, atomics only on unguarded "
+         "objects, locks released, insertion only after a miss in the same critical section - is re-checked by "
+         "generated_paths_disciplined); for any sequential operation f, the shared state and all results of lock; read; write; "
+         "unlock sections are those of running the calls one after the other in the order they took effect, each thread's calls "
+         "in program order, none lost or duplicated (section_linearizable, section_read_is_current); hence the arena behind the "
+         "mutex satisfies C01's invariant - all blocks handed out to whichever thread are disjoint (shared_arena_blocks_exclusive) "
+         "- and all lookups of one locale code return one object (locale_cache_consistent); atomic counters count every increment "
+         "(counters_exact), a plain increment does not (plain_increment_loses_update).",
+    note="PARTIAL. Not a theorem: that pthread mutexes / once / thread-specific keys implement the model's lock and once steps; "
+         "compiler and hardware reordering (the model is sequentially consistent; outside critical sections only the race "
+         "detector speaks); exactly-once release of a thread's scratch arena and scopes at thread exit (checked by LeakSanitizer / "
+         "AddressSanitizer in the stress runs and sequentially by C02); the default heap allocator is malloc (trusted). The "
+         "skeleton extractor sees calls and branches on the looked-up variable only. Trusted: gen_c14.py, harness c14_sched.c "
+         "(scheduler, interposed newlocale), c14_stress.c, clang ThreadSanitizer.",
+    ref="10.9")
+
 PENDING = {}
 
 def main():
@@ -305,8 +325,8 @@ def main():
     m = {
         "version": 1,
         "setup_cmd": "python3 tools/setup.py",
-        "hooks": {"guard": "LIBGPC_VERIF", "enable": "checks compile /repo/src/*.c themselves with -DLIBGPC_VERIF (plus -D_GNU_SOURCE -DGP_PEDANTIC, ASan/UBSan)",
-                  "baseline_off_cmd": "sh tools/baseline.sh", "source_commits": [], "add_only": True},
+        "hooks": {"guard": "LIBGPC_VERIF", "enable": "the C14 check compiles /repo/src/*.c and harness/c14_sched.c itself with -DLIBGPC_VERIF (pthread configuration: -std=gnu11 -D__STDC_NO_THREADS__ -include pthread.h); every other check builds with the guard off",
+                  "baseline_off_cmd": "sh tools/baseline.sh", "source_commits": ["ab009a9", "b45aca4"], "add_only": True},
         "engines": [{"name": "lean4-proof+correspondence", "path": "/verif/tools/check.py",
                      "serves_properties": sorted(CLAIMED),
                      "kind_free_text": "Lean 4 theorems about a model (lake build + axiom audit) tied to /repo by a differential correspondence run and an independent oracle"}],
